@@ -137,7 +137,7 @@ def innermost_selfies_frame(e):
 
 def call(s, strict, attribute):
     budget = 5 + len(s) / 50.0
-    timed = len(s) > 200 or not _SHARD_TIMER[0]
+    timed = True      # one interval timer per call: 5 s + 1 s per 50 characters
     if timed:
         signal.setitimer(signal.ITIMER_REAL, budget)
     try:
@@ -188,11 +188,14 @@ def run(task):
     if arg[0] == "strings":
         _, an, L, sh = arg
         w = None
-        signal.setitimer(signal.ITIMER_REAL, 150)
         _SHARD_TIMER[0] = True
         try:
+            _TIMEOUTS[0] = 0
             for w in E1.nodes(ALPH[an], L, sh):
                 check("".join(w), r)
+                if _TIMEOUTS[0] >= 3:
+                    r.caps.append("shard %r stopped after 3 watchdog expiries" % (sh,))
+                    break
         except Timeout:
             r.violation("timeout", {"input": "".join(w), "strict": None, "attribute": None},
                         "shard watchdog (150 s) expired while encoding %r" % ("".join(w),))
